@@ -392,6 +392,9 @@ func (eng *Engine) closedWorldTargets(out []target) []target {
 				var ct *Contract
 				if own := eng.cs.Contracts[key]; own != nil && eng.funcsByKey[key] == fn {
 					if own.Implements != "" {
+						if own.Trusted {
+							eng.trustedImpls = append(eng.trustedImpls, trustedImpl{ict.Props, "implementation " + funcDisplay(fn) + " of interface contract " + rest + " is stated (trusted), not verified"})
+						}
 						continue // already a target, checked against the interface contract there
 					}
 					// replace the plain target by one that also checks the interface contract
